@@ -22,8 +22,18 @@ fn verif_native_source_view() {
     let p3 = "a jsr b ; é\n.break\nb: and r1 , r2 , r3\n.orig xFDF0\nputs\nz .fill #-1\n";
     let t3: Vec<&str> = vec!["jsr b", "and r1 , r2 , r3", "puts", ".fill #-1"];
     let l3 = vec![("a", 0u16), ("b", 1), ("z", 3)];
+    // the very first byte of the file begins an operand-less statement (no .orig, label, comment or indentation before it)
+    let p4 = "reg\nlea r0 msg\nputs\nhalt\nmsg .stringz \"ok\"\n";
+    let t4: Vec<&str> = vec!["reg", "lea r0 msg", "puts", "halt", ".stringz \"ok\"", ".stringz \"ok\"", ".stringz \"ok\""];
+    let l4 = vec![("msg", 4u16)];
+    let p5 = ".fill x1\nret";
+    let t5: Vec<&str> = vec![".fill x1", "ret"];
+    let l5: Vec<(&str, u16)> = vec![];
+    let p6 = "ret";
+    let t6: Vec<&str> = vec!["ret"];
+    let l6: Vec<(&str, u16)> = vec![];
     let mut evaluated = 0u64;
-    for (src, orig, texts, labels) in [(p1, 0x3100u16, t1, l1), (p2, 0x3000, t2, l2), (p3, 0xFDF0, t3, l3)] {
+    for (src, orig, texts, labels) in [(p1, 0x3100u16, t1, l1), (p2, 0x3000, t2, l2), (p3, 0xFDF0, t3, l3), (p4, 0x3000, t4, l4), (p5, 0x3000, t5, l5), (p6, 0x3000, t6, l6)] {
         crate::symbol::reset_state();
         let src = leak(src);
         let mut air = crate::parser::AsmParser::new(src).expect("lex").parse().expect("parse");
